@@ -84,9 +84,9 @@ def single_joins(tier):
                         # elsewhere one spelling per kind on every on-form, and every spelling on the two main on-forms
                         if how in CASE_VARIANTS and pi > 0:
                             continue
-                        if (pi > 0 or di > 0) and how not in ONE_PER_KIND and fname not in ("name", "expr"):
+                        if pi > 0 and how not in ONE_PER_KIND and fname != "name":
                             continue
-                        if di > 0 and how not in ONE_PER_KIND:
+                        if di > 0 and (how not in ONE_PER_KIND or fname in ("names1", "exprs")):
                             continue
                     out.append(case(l, [step(r, on, how)], None, data, shape))
     # no colliding column names at all (the only class in which a right join with an expression condition is right)
@@ -149,7 +149,7 @@ def joins_then(tier):
                 if on is None:
                     continue
                 for fi, fin in enumerate(fins_for([l, r])):
-                    if tier == "quick" and shape != "independent" and fi in (1, 4, 5):
+                    if tier == "quick" and (fi in (1, 4) or (shape != "independent" and fi == 5)):
                         continue
                     out.append(case(l, [step(r, on, how)], fin, "std", shape))
     return out
@@ -230,7 +230,7 @@ def corpus():
 
 
 def gen_cases(rnd, tier, n_chains=None):
-    cs = corpus() + single_joins(tier) + joins_then(tier) + chains(rnd, n_chains or (120 if tier == "quick" else 2500))
+    cs = corpus() + single_joins(tier) + joins_then(tier) + chains(rnd, n_chains or (100 if tier == "quick" else 2500))
     seen, out = set(), []
     for c in cs:
         k = cc.key({x: c[x] for x in ("left", "steps", "fin", "data")})
@@ -315,6 +315,8 @@ def signature(case, raised):
                     later = True
             if later:
                 return f"C02/chain/name-join-on-key-of-earlier-{kinds[i]}-name-join"
+            if kinds[i] == "full" and i + 1 < len(steps):
+                return "C02/chain/join-after-full-outer-name-join-rebuilds-key-from-left-table"
             if kinds[i] == "full" and fin is not None:
                 bare = [r[1] for e in ([fin[1]] if fin[0] == "where" else [x for x, _ in fin[1]])
                         for r in cc.refs_of(e) if r[0] == "name"]
@@ -342,6 +344,14 @@ def signature(case, raised):
                 sj = steps[j]
                 if sj["on"] and sj["on"][0] == "names" and set(sj["on"][1]) & collisions(case, i):
                     return "C02/chain/column-dropped-by-name-join-shifts-later-resolution"
+    # normalize.py: when the first two tables of the join share a branch id, EVERY reference through a DataFrame goes to the
+    # first table -- also a reference to a third DataFrame (or an AssertionError once there are three tables)
+    if len(steps) >= 2 and cc.df_base(case["left"]) == cc.df_base(steps[0]["right"]):
+        later_refs = [r for s2 in steps[1:] if s2["on"] and s2["on"][0] == "exprs" for e in s2["on"][1] for r in cc.refs_of(e)]
+        if fin is not None:
+            later_refs += [r for e in ([fin[1]] if fin[0] == "where" else [x for x, _ in fin[1]]) for r in cc.refs_of(e)]
+        if any(r[0] == "df" for r in later_refs):
+            return "C02/common-ancestor/reference-through-dataframe-in-longer-chain"
     if case.get("shape") == "common-ancestor" and steps and steps[0]["on"] and steps[0]["on"][0] == "exprs":
         tabs = [case["left"], steps[0]["right"]]
         if tabs[0][0] != "base" and tabs[1][0] == "base":
